@@ -62,7 +62,9 @@ class FaultRig(ClientRig):
 def upload(n, crc, sized, how, fault=None):
     E = _exc()
     value = sx.fresh_bytes("v", n)
-    srv = BlockUploadServer(sx.items(value), crc=bool(crc), size_indicated=bool(sized))
+    # crc: 1 negotiated, 0 the server cannot, 2 the client does not ask, 3 the client does not ask and the server's sc
+    # bit states its capability all the same (no CRC is generated then: the field is 0)
+    srv = BlockUploadServer(sx.items(value), crc=bool(crc), size_indicated=bool(sized), sc_capability=(crc == 3))
     rig = FaultRig(srv, tuple(fault) if fault else None)
     idx = sx.fresh_int("idx", 0, 0xFFFF)
     sub = sx.fresh_int("sub", 0, 0xFF)
@@ -77,7 +79,7 @@ def upload(n, crc, sized, how, fault=None):
         else:
             buffering = 1024 if how in ("buffered", "exact") else 0
         fp = rig.client.open(idx, sub, "rb", buffering=buffering, block_transfer=True,
-                             request_crc_support=(crc != 2))
+                             request_crc_support=(crc not in (2, 3)))
         try:
             if how == "raw7":
                 parts = []
@@ -266,6 +268,8 @@ def jobs(tier):
             out.append(dict(func="upload", params=dict(n=n, crc=1, sized=1, how=how, fault=["crc"]), weight=n))
             out.append(dict(func="upload", params=dict(n=n, crc=1, sized=1, how=how), weight=n))
         out.append(dict(func="upload", params=dict(n=n, crc=2, sized=1, how="buffered"), weight=n))
+        out.append(dict(func="upload", params=dict(n=n, crc=3, sized=1, how="buffered"), weight=n))
+        out.append(dict(func="upload", params=dict(n=n, crc=3, sized=0, how="rawall"), weight=n))
         out.append(dict(func="upload", params=dict(n=n, crc=1, sized=1, how="buffered", fault=["end"]), weight=n))
         # the same faults when the server does not indicate the size
         out.append(dict(func="upload", params=dict(n=n, crc=1, sized=0, how="buffered", fault=["crc"]), weight=n))
